@@ -1,6 +1,10 @@
 # C17 - each configuration switch silences exactly the diagnostics it names (DESIGN 5, C17)
 #
-# One deciding leg, c17.filter: the REAL server (fresh process per case) is given a configuration by one of the three
+# Two deciding legs.  c17.sites: the two places where the ignore-for-analysis rules decide (directory walk, per-file
+# predicate IsNeedHandle), observed on the REAL server through the protocol only (which files hold diagnostics after
+# start-up / a settings change; which files answer a didOpen+didChange probe), against the extracted model
+# (is_handled / need_handle) and spec (spec_handled: a rule takes a file out iff it matches the file's name or a folder
+# on its way, however the rule is spelt).  c17.filter: the REAL server (fresh process per case) is given a configuration by one of the three
 # routes and its final publishDiagnostics view is compared with the extracted model (filter of the everything-enabled
 # run according to coq/Model/Config.v) and the extracted spec (coq/Spec/ConfigSpec.v).  The case line is completed in
 # three oracle stages (see eval_cases): Go regexp table -> analysed-file mask (model) -> raw run over those files.
@@ -11,6 +15,7 @@ from vlib import Leg, run_worker
 WS = {
     "w1": ["deep/er/x.lua", "imp.lua", "lib/lib.lua", "main.lua", "sub/ann.lua", "sub/ann2.lua", "syn.lua"],
     "w2": ["c++/lib2.lua", "c+v/inc.lua", "common/test.lua", "one.lua", "port/off.lua", "port/on_a.lua", "port/on_b.lua", "tests/t1.lua"],
+    "w3": ["calls/ptype.lua", "rets.lua", "top.lua"],     # types 10 and 24 side by side (+ 2, 4, 9, 15, 16)
 }
 NFLAGS = 26
 SPECIAL = [2, 3, 10, 11, 12]
@@ -91,6 +96,31 @@ LIT_PARTS = ["/", ".", ".lua", "lua", "a", "x", "_", "on", "t", "er", "sub", "po
              "c+v", "c+v/", "c++", "c++/lib2.lua", "+v/inc.lua", "c+", "+v/", "+v", "++/", "+/", "+/lib2.lua", "+"]
 REGEXES = ["on.*lua", "^sub/", "^/tmp", "o[nf]+\\.lua", "a.*b", ".*", "port/on_.\\.lua", "x\\.lua$", "(sub|lib)/", "^$",
            "[a-z]+/[a-z]+/", "t1?\\.lua", "deep", "\\.lua", "ann2?", "[0-9]+", "er/x", "^port/", "test", "s$", "/$"]
+# ignore-for-analysis entries (IgnoreFileOrDir / IgnoreFileOrFloder) that tell the two sites and the two rule lists apart:
+#  - regex forms that match FILES but do not end in the literal ".lua" (filed as folder rules): the documented
+#    "port/on.*lua" first
+#  - entries anchored at either end (the walk sees "a/b/", "a/b/c.lua", the per-file predicate saw "/a/b/c.lua")
+#  - folder entries with and without the trailing slash, with a leading slash, fragments of folder names
+#  - entries ending in ".lua" that are regexps (filed as file rules), also ones that match a folder only
+SITE_PATTERNS = {
+    "w1": ["sub/ann.*lua", "ann.?\\.lu", "sub/ann2?", "^sub/", "sub/$", "^sub/$", "sub/", "sub", "/sub/", "/sub", "^/sub",
+           "deep/er/", "deep/er", "deep/", "^deep/$", "er/$", "^er/", "/deep/er/x", "deep/.*x", "x\\.lu", "^imp", "^imp.lua",
+           "^/imp.lua", "imp\\.lua$", "/imp.lua", "main", "main.lu", "^main\\.lua$", "(main|syn)\\.lua", "(main|syn)", "lib",
+           "lib/", "^lib/lib", "lib/lib.lua", "/lib/lib.lua", "lib\\.lua", "^lib\\.lua", "l.b/", "^[a-z]+/$|zz.lua",
+           "^[a-z]+\\.lua", "^/[a-z]+\\.lua", "s[uy][bn]", ".lua", "lua", "\\.lua$", "a", "/", "^/", "^[^/]*$", "x.lua",
+           "syn.lua", "[", "sub/(", "sub/[.lua", "*.lua"],
+    "w2": ["port/on.*lua", "port/on.*\\.lua", "port/on_", "on_.*lua", "on_[ab]", "port/o[nf]+", "^port/", "port/$", "^port/$",
+           "port/", "port", "/port/", "/port", "^/port", "^port", "tests/", "tests", "/tests/", "^tests", "tests/$", "t1",
+           "tests/t1", "^tests/t1.lua", "/tests/t1.lua", "t1\\.lua$", "one.lua", "^one.lua", "^/one.lua", "/one.lua", "^one",
+           "one", "one\\.lu", "(one|off)\\.lua", "(one|off)", "common/", "common", "common/test", "^common/$|zz.lua",
+           "^[a-z]+/$|zz.lua", "c+v/", "c+v", "c+v/inc.lua", "c++/", "c++", "c++/lib2.lua", "c\\+\\+/", "c\\+v/inc", "c.v/",
+           "lib2?", "inc\\.lu", ".lua", "lua", "\\.lua$", "^[a-z]+\\.lua", "^/[a-z]+\\.lua", "o", "/", "^/", "^[^/]*$",
+           "[", "port/(", "port/[.lua", "*.lua"],
+    "w3": ["calls/p.*lua", "calls/", "calls", "^calls/", "calls/$", "/calls/", "/calls", "ptype", "calls/ptype.lua",
+           "/calls/ptype.lua", "^calls/ptype", "pt.pe\\.lu", "^rets", "rets.lua", "^/rets.lua", "^rets.lua", "/rets.lua", "top",
+           "(rets|top)\\.lua", "(rets|top)", ".lua", "lua", "^[a-z]+\\.lua", "^/[a-z]+\\.lua", "^[a-z]+/$|zz.lua", "s/$", "/",
+           "^[^/]*$", "[", "calls/(", "*.lua"],
+}
 BAD_REGEXES = ["(", "[a", "a{2,1}", "*", "on(.lua", "\\", "(?P<n", "x.lua)", "+.lua"]
 
 
@@ -125,8 +155,19 @@ def rand_patterns(rng, ws, allow_bad, p_some=0.5):
     return [rand_pattern(rng, ws, allow_bad) for _ in range(rng.choice([1, 1, 1, 2, 3]))]
 
 
+def rand_site_pattern(rng, ws):
+    return rng.choice(SITE_PATTERNS[ws]) if rng.random() < 0.7 else rand_pattern(rng, ws, True)
+
+
+def rand_site_patterns(rng, ws, p_some=0.5):
+    """ignore-for-analysis entries"""
+    if rng.random() > p_some:
+        return []
+    return [rand_site_pattern(rng, ws) for _ in range(rng.choice([1, 1, 1, 2, 3]))]
+
+
 def rand_client(rng, ws, bad_err=0.04, local=0.0):
-    ih = rand_patterns(rng, ws, True, 0.35)
+    ih = rand_site_patterns(rng, ws, 0.35)
     ie = rand_patterns(rng, ws, rng.random() < bad_err, 0.45)
     return client(rand_flags(rng), ih, ie, rng.random() < local)
 
@@ -154,7 +195,7 @@ def rand_json(rng, ws, bad=0.04):
         ign = sorted((set(ign) | set(GATE)) - set(on))
         if rng.random() < 0.7:
             op = list(range(22, 30))
-    ih = rand_patterns(rng, ws, True, 0.3)
+    ih = rand_site_patterns(rng, ws, 0.3)
     ie = rand_patterns(rng, ws, rng.random() < bad, 0.4)
     ft = []
     if rng.random() < 0.5:
@@ -165,8 +206,8 @@ def rand_json(rng, ws, bad=0.04):
     return jsoncfg(show, ign, op, ih, ie, ft)
 
 
-# the model variant in use (ocaml leg c17.variant: regexp gate coupled dead dup), set by main() before the legs run
-VARIANT = "11111"
+# the model variant in use (ocaml leg c17.variant: regexp gate coupled dead dup sites), set by main() before the legs run
+VARIANT = "111111"
 
 
 def to_json_of(flags, ih, ie):
@@ -184,16 +225,26 @@ def gen_filter(rng, tier):
     # fixed part: all 26 single toggles by each route, the gate, the master switch
     if tier != "search":
         for ws in wss:
+            # every single toggle by EACH route (a slip in one of the positional flag lists - position i carrying the
+            # switch of type j - shows on the route that uses that list, as soon as switches i and j differ and the
+            # workspace has a diagnostic of type i), and its complement (one switch on) by a later settings change
             for k in range(NFLAGS):
                 f = list(ALL_ON); f[k] = False
                 c = client(f)
-                route = k % 3
-                if route == 0:
-                    out.append(case(ws, rand_root(rng, 0), None, c, []))
-                elif route == 1:
-                    out.append(case(ws, rand_root(rng, 0), None, client(ALL_ON), [client(ALL_ON), c]))
-                else:
-                    out.append(case(ws, rand_root(rng, 0), to_json_of(f, [], []), client(ALL_ON), []))
+                out.append(case(ws, rand_root(rng, 0), None, c, []))
+                out.append(case(ws, rand_root(rng, 0), None, client(ALL_ON), [client(ALL_ON), c]))
+                out.append(case(ws, rand_root(rng, 0), to_json_of(f, [], []), client(ALL_ON), []))
+                if k:
+                    g = [False] * NFLAGS; g[0] = True; g[k] = True
+                    out.append(case(ws, rand_root(rng, 0), None, client(ALL_ON), [client(ALL_ON), client(g)]))
+            # exactly one of two neighbouring switches off, by the second settings change of the session
+            for k in range(1, NFLAGS - 1):
+                for off in (k, k + 1):
+                    f = [True] * NFLAGS
+                    for x in range(1, NFLAGS):
+                        f[x] = x in (k, k + 1)
+                    f[off] = False
+                    out.append(case(ws, rand_root(rng, 0), None, client(ALL_ON), [client(ALL_ON), client(ALL_ON), client(f)]))
             out.append(case(ws, rand_root(rng, 0), None, client(ALL_ON), []))
             out.append(case(ws, rand_root(rng, 0), None, client(flags_off(*SPECIAL)), []))
             for t in GATE:                           # exactly one gate type on (a type dropped from the gate shows here)
@@ -203,7 +254,8 @@ def gen_filter(rng, tier):
                     out.append(case(ws, rand_root(rng, 0), jsoncfg(1, [x for x in GATE if x != t], list(range(22, 30))),
                                     client(ALL_ON), []))
             out.append(case(ws, rand_root(rng, 0), jsoncfg(1, [], list(range(22, 30))), client(ALL_ON), []))
-    while len(out) < n + (2 * (NFLAGS + 3 + len(GATE)) if tier != "search" else 0):
+    fixed = len(out)
+    while len(out) < n + fixed:
         ws = rng.choice(wss)
         root = rand_root(rng)
         m = rng.random()
@@ -215,7 +267,7 @@ def gen_filter(rng, tier):
             chs = [sync] + [rand_client(rng, ws, 0.02) for _ in range(rng.choice([1, 1, 2, 3]))]
             out.append(case(ws, root, None, c0, chs))
         elif m < 0.70:                               # the same intent by all three routes (three cases)
-            f = rand_flags(rng); ih = rand_patterns(rng, ws, True, 0.3); ie = rand_patterns(rng, ws, False, 0.4)
+            f = rand_flags(rng); ih = rand_site_patterns(rng, ws, 0.3); ie = rand_patterns(rng, ws, False, 0.4)
             c = client(f, ih, ie)
             c0 = rand_client(rng, ws, 0.0)
             out.append(case(ws, root, None, c, []))
@@ -227,6 +279,44 @@ def gen_filter(rng, tier):
             out.append(case(ws, root, rand_json(rng, ws, 0.0), rand_client(rng, ws, 0.0),
                             [rand_client(rng, ws, 0.3) for _ in range(2)]))
     return out
+
+
+DOC_EXAMPLE = ["port/on.*lua", "tests/", "one.lua"]       # docs/manual/config.md, verbatim
+
+
+def sites_case(rng, ws, ih, route, ih0=()):
+    """every switch on, no silencing rule: a scanned file shows its diagnostics"""
+    if route == 0:                                   # initializationOptions
+        return case(ws, rand_root(rng, 0), None, client(ALL_ON, ih), [])
+    if route == 1:                                   # later settings change (the walk runs again); first = start-up sync
+        c0 = client(ALL_ON, ih0)
+        return case(ws, rand_root(rng, 0), None, c0, [c0, client(ALL_ON, ih)])
+    return case(ws, rand_root(rng, 0), jsoncfg(1, [], [], ih), client(ALL_ON, ih0), [])     # luahelper.json
+
+
+def gen_sites(rng, tier):
+    n = {"quick": 700, "thorough": 12000, "search": 500}[tier]
+    out = []
+    wss = sorted(WS)
+    if tier != "search":
+        for route in range(3):                       # the documented example by each route
+            out.append(sites_case(rng, "w2", DOC_EXAMPLE, route))
+        for ws in wss:
+            out.append(sites_case(rng, ws, [], 0))
+            for k, p in enumerate(SITE_PATTERNS[ws]):    # every entry of the table alone
+                out.append(sites_case(rng, ws, [p], k % 3))
+    while len(out) < n:
+        ws = rng.choice(wss)
+        ih = [rand_site_pattern(rng, ws) for _ in range(rng.choice([1, 1, 2, 2, 3, 4]))]
+        route = rng.randrange(3)
+        ih0 = rand_site_patterns(rng, ws, 0.5) if route else ()
+        out.append(sites_case(rng, ws, ih, route, ih0))
+    return out
+
+
+def nontrivial_sites(c):
+    f = c.split(" ")
+    return f[3] != "-" and f[3].split(";")[3] != "_" or any(x.split(";")[1] != "_" for x in [f[4]] + (f[5].split("|") if f[5] != "-" else []))
 
 
 def nontrivial(c):
@@ -330,8 +420,26 @@ def distribution(rows, rawcache):
             "raw_runs": len(rawcache), "diagnostic_types_triggered": sorted(types)}
 
 
+def sites_distribution(rows):
+    import collections
+    route, outcome = collections.Counter(), collections.Counter()
+    for c, i, m, s, k in rows:
+        f = c.split(" ")
+        route["luahelper.json" if f[3] != "-" else ("settings-change" if f[5] != "-" else "initializationOptions")] += 1
+        if i.startswith("S="):
+            sm, am = i[2:].split(" A=")
+            outcome["some file ignored" if "0" in sm + am else "nothing ignored"] += 1
+            outcome["everything ignored"] += (set(sm + am) == {"0"})
+        else:
+            outcome["other: " + i[:20]] += 1
+        if "=E" in f[6]:
+            outcome["with an entry that does not compile"] += 1
+    return {"routes": dict(route), "outcomes": dict(outcome)}
+
+
 LEG = Leg("c17.filter", gen_filter, nontrivial=nontrivial, shrink=shrink_case, per_case_s=3.0, describe=describe)
-LEGS = [LEG]
+LEG_SITES = Leg("c17.sites", gen_sites, nontrivial=nontrivial_sites, shrink=shrink_case, per_case_s=3.0, describe=describe)
+LEGS = [LEG_SITES, LEG]
 
 # The model variant (one boolean per fix: commit) follows the code through the translator (coq/Generated/GenFlags.v ->
 # Tie.fixes_now); C17_FIXED in the environment overrides it (see ocaml/c17_run.ml).
@@ -343,13 +451,23 @@ class C17Runner(vlib.Runner):
     rawcache = {}
 
     def eval_cases(self, leg, cases):
-        if leg.name != "c17.filter":
+        if leg.name not in ("c17.filter", "c17.sites"):
             return super().eval_cases(leg, cases)
         base = [" ".join(c.split(" ")[:6]) for c in cases]
         menv = dict(os.environ, **MODEL_ENV)
         # stage 1: Go regexp on every (pattern, name) pair of the case
         re = run_worker([self.impl_exe, "c17.re"], base, 0.05)
         c1 = [c + " " + r for c, r in zip(base, re)]
+        if leg.name == "c17.sites":
+            impl = run_worker([self.impl_exe, "c17.sites"], c1, leg.per_case_s, jobs=min(vlib.NCPU, max(1, len(c1) // 4)))
+            mod = run_worker([self.model_exe, "c17.sites"], c1, 0.05, env=menv)
+            rows = []
+            for c, i, m in zip(c1, impl, mod):
+                parts = m.split("\t")
+                while len(parts) < 3:
+                    parts.append("-")
+                rows.append((c, i, parts[0], parts[1], parts[2]))
+            return rows
         # stage 2: which files are analysed at all (model)
         mask = run_worker([self.model_exe, "c17.handled"], c1, 0.05, env=menv)
         # stage 3: the everything-enabled run over exactly those files (one run per distinct (workspace, mask))
@@ -407,15 +525,16 @@ TRUSTED = vlib.TRUSTED_COMMON + [
     "oracle: Go regexp (Section variables re_ok / re_match; every theorem holds for any regexp engine); the leg c17.re calls package regexp directly",
     "oracle: raw = diagnostics of the everything-enabled run over the analysed files (Section variable; leg c17.raw runs the real server with luahelper.json {IgnoreErrorTypes:[], OpenErrorTypes:[22..29]}, the files not analysed excluded by their literal names)",
     "hand table validated by correspondence only: produced_in / cross_types (which pass emits which type); for the variants before the repairs also global_prereq (17 behind 4, 24 behind 10) and the type-11 reference table of the test workspaces (harness/c17_ws.go c17Refs)",
-    "modelled, tied by correspondence: handleNotJSONCheckFlag, HandleChangeCheckList, ReadConfig (json branch), ChangeConfiguration (first notification swallowed), IsIgnoreErrorFile, isIgnoreFloder/isIgnoreFile + directory walk, IsSpecialCheck + HandleCheck gate",
-    "tied by translator (coq/Generated/GenFlags.v, GenErrTypes.v -> Tie/TieConfig.v): order of getCheckFlagList / getWarnCheckList, json tags of InitializationOptions / WarnParams, errTypeList of IsSpecialCheck (covers every cross-file type), error type constants, open_required (= the types looked up in OpenErrorTypeMap by check/analysis), the table of every IsGlobalIgnoreErrType / IsIgnoreErrorFile use inside check/analysis (repaired shape), the OpenErrorTypeMap write of handleNotJSONCheckFlag, the IgnoreFileErrTypesMap read of ReadConfig; Properties/C17.v C17_code_is_deployed_variant: fixes_now = deployed",
+    "modelled, tied by correspondence: handleNotJSONCheckFlag, HandleChangeCheckList, ReadConfig (json branch), ChangeConfiguration (first notification swallowed), IsIgnoreErrorFile, isIgnoreFloder/isIgnoreFile/isIgnoreRelFile + directory walk (getAllFile) + per-file predicate (IsIgnoreCompleteFile behind IsNeedHandle; leg c17.sites), IsSpecialCheck + HandleCheck gate",
+    "tied by translator (coq/Generated/GenFlags.v, GenErrTypes.v -> Tie/TieConfig.v): order of getCheckFlagList / getWarnCheckList, json tags of InitializationOptions / WarnParams, errTypeList of IsSpecialCheck (covers every cross-file type), error type constants, open_required (= the types looked up in OpenErrorTypeMap by check/analysis), the table of every IsGlobalIgnoreErrType / IsIgnoreErrorFile use inside check/analysis (repaired shape), the OpenErrorTypeMap write of handleNotJSONCheckFlag, the IgnoreFileErrTypesMap read of ReadConfig, which ignore helper getAllFile / IsIgnoreCompleteFile / isIgnoreRelFile call; Properties/C17.v C17_code_is_deployed_variant: fixes_now = deployed",
 ]
 ASSUMPTIONS = [
-    "types 24, 25, 27 are never triggered by the test workspaces (the model's rules for them are read from the code, not exercised)",
+    "types 25, 27 are never triggered by the test workspaces (the model's rules for them are read from the code, not exercised); type 24 only by workspace w3",
     "project entry files (luahelper.json ProjectFiles, second-pass mode) are outside the modelled fragment; malformed JSON text of luahelper.json is not modelled (observed: initialize answers with an error, the server stays up)",
     "client protocol: the first workspace/didChangeConfiguration after initialize repeats the initializationOptions (vscode-languageclient synchronize); the server swallows it",
     "LocalRun is modelled only as far as the nil-map fault at initialize goes (the test workspaces use no system globals, so the system-module list it installs does not change their diagnostics)",
-    "pattern matching is on the absolute file name (IsIgnoreErrorFile) resp. the name relative to the workspace (ignore for analysis), as in the code; the spec uses the same names",
+    "pattern matching is on the absolute file name (IsIgnoreErrorFile) resp. the names relative to the workspace (ignore for analysis: the file's name with and without the leading separator and the folders on its way), as in the code; the spec uses the same names; the spec of the ignore-for-analysis rules does NOT use the code's classification of the entries by a literal '.lua' suffix",
+    "leg c17.sites observes 'scanned by the walk' as 'the client holds diagnostics of the file' (every switch on, no silencing rule, every file of the test workspaces has a diagnostic of its own) and 'accepted by IsNeedHandle' as 'a didOpen + didChange probe yields a diagnostic on the probe line'; only files of the main workspace folder (sub-directories configured elsewhere and the client's extra Lua path are walked without ignore rules in the code and are outside the model)",
 ]
 
 
@@ -427,16 +546,21 @@ def main(tier, seed):
     if can_run:
         global VARIANT
         v = run_worker([r.model_exe, "c17.variant"], ["-"], 0.05, env=dict(os.environ, **MODEL_ENV))
-        if v and len(v[0]) == 5 and set(v[0]) <= {"0", "1"}:
+        if v and len(v[0]) == 6 and set(v[0]) <= {"0", "1"}:
             VARIANT = v[0]
-        extra["model_variant"] = {"regexp gate coupled dead dup": VARIANT}
+        extra["model_variant"] = {"regexp gate coupled dead dup sites": VARIANT}
         os.makedirs("/tmp/lhc17", exist_ok=True)
         r.replay_findings({l.name: l for l in LEGS})
         for leg in LEGS:
             rows = r.run_leg(leg)
-            extra["input_distribution"] = distribution(rows, r.rawcache)
+            if leg.name == "c17.filter":
+                extra["input_distribution"] = distribution(rows, r.rawcache)
+            else:
+                extra["sites_distribution"] = sites_distribution(rows)
     LEG_RULE = ("non-trivial = anything but 'every switch on, no pattern, no luahelper.json, no change'; observable = sorted "
                 "(file, type, line, column) of the client's final publishDiagnostics view, or CRASH <reason>")
+    SITES_RULE = ("non-trivial = at least one ignore-for-analysis entry; observable = per file of the workspace: holds "
+                  "diagnostics after the (last) walk / answers the didOpen+didChange probe")
     for st in r.leg_stats:
-        st["rule"] = LEG_RULE
+        st["rule"] = SITES_RULE if st.get("leg") == "c17.sites" else LEG_RULE
     return r.finish(LEGS, extra_cov=extra, trusted=TRUSTED, assumptions=ASSUMPTIONS)
